@@ -26,9 +26,14 @@ impl Prop for C05P {
         let b = bounds_for(tier, QUICK, THOROUGH);
         let mut v = init_units('T', &b);
         v.extend(init_units('Z', &b));
+        v.extend(super::array_bfs::chain_units('T', false, tier));
         v
     }
     fn run_unit(&self, unit: &str, ctx: &mut Ctx) {
+        if unit.starts_with("extra:chain:") {
+            super::array_bfs::run_chain_unit(unit, ctx);
+            return;
+        }
         let b = bounds_for(ctx.tier, QUICK, THOROUGH);
         run_unit_generic(unit, ctx, &b, true);
     }
@@ -41,7 +46,8 @@ impl Prop for C05P {
          alphabet = every operation that moves elements (insert/push from owned iterators, remove/pop with every front/back consumption split - yielded elements are held and dropped after the drain -, removal consumed through nth / nth_back / skip+step_by / rev+skip / last / count, removal whose drain is LEAKED with mem::forget after every consumption split (the state is then read back from the array and the search continues from it), clear, fill, clone_from_slice, clone_from_toodee, Clone::clone_from, swaps, sorts, translate, flips, indexed replacement) \
          plus terminal actions in every state (drop, clone and drop in either order, Vec::from, Box::from, into_iter consumed (f,b) then dropped, TooDee::from(view/view_mut) of every window). \
          For Tracked elements every transition is additionally re-run once per call into the element type's own code (Clone, Drop, Ord::cmp) with that call panicking: afterwards the array must be valid and nothing dropped twice. Oracle after every transition: every reachable cell is live, canary-valid and pairwise distinct; no double drop, no drop of a never-constructed value; when nothing panicked, live elements == reachable cells; \
-         after the array is dropped the ledger is empty; guard allocator clean. Non-trivial = accepted call or terminal action; distinct by (state, action, capacity variant)."
+         after the array is dropped the ledger is empty; guard allocator clean. \
+         Two-step (thorough: also three-step, from the shapes up to 2x2) histories on ONE live object (nothing re-materialised between the steps, so spare capacity and stale bits beyond the length are carried over): from the distinct-label array of each shape up to 3x2 / 2x3, every action (exact and spare capacity) followed by every action of the state reached, same oracle after each step. Non-trivial = accepted call or terminal action; distinct by (state, action, capacity variant)."
             .into()
     }
     fn bound(&self, tier: Tier) -> String {
